@@ -1,6 +1,7 @@
 import WtfModel.Model.Index
 import WtfModel.Model.Filters
 import WtfModel.Model.Fuzzy
+import WtfModel.Gen.SearchParams
 /-
   Model of database.SearchUniversal (search_universal.go, search_helpers.go, search.go
   performFuzzySearch) as it is at /repo HEAD.  Core Lean only, generic over the score type.
@@ -56,20 +57,22 @@ structure Tuning (S : Type) where
   tfidf : Option (Bytes → List (Nat × S))              -- TF-IDF ranking of all commands (none: no searcher)
   fuzzySort : List (Nat × Int) → List (Nat × Int)      -- sort.Stable with the library's Less
 
-/-! constants of the pipeline (inline literals in SearchUniversal and friends) -/
-def defaultLimit : Nat := 10
-def appendCap : Nat := 8
-def defaultTermCap : Nat := 10
-def preserveCount : Nat := 4
-def rerankMult : Nat := 5
-def rerankMin : Nat := 10
-def fuzzyMult : Nat := 2
-def fuzzyBase : Int := 100
-def actionEmphasis : Q := ⟨2, 1⟩
-def targetEmphasis : Q := ⟨8, 5⟩
-def coocFactor : Q := ⟨6, 5⟩
-def rerankAlpha : Q := ⟨7, 20⟩
-def rerankScale : Q := ⟨100, 1⟩
+/-! constants of the pipeline (inline literals in SearchUniversal and friends): the values the translator read off the source on
+    this run (`Gen/SearchParams.lean`), so that a re-tuned literal is followed by the model and by every theorem that does not
+    depend on its value -/
+def defaultLimit : Nat := Gen.SearchParams.defaultLimit
+def appendCap : Nat := Gen.SearchParams.appendCap
+def defaultTermCap : Nat := Gen.SearchParams.defaultTermCap
+def preserveCount : Nat := Gen.SearchParams.preserveCount
+def rerankMult : Nat := Gen.SearchParams.rerankMult
+def rerankMin : Nat := Gen.SearchParams.rerankMin
+def fuzzyMult : Nat := Gen.SearchParams.fuzzyMult
+def fuzzyBase : Int := (Gen.SearchParams.fuzzyBase : Nat)
+def actionEmphasis : Q := Gen.SearchParams.actionEmphasis
+def targetEmphasis : Q := Gen.SearchParams.targetEmphasis
+def coocFactor : Q := Gen.SearchParams.coocFactor
+def rerankAlpha : Q := Gen.SearchParams.rerankAlpha
+def rerankScale : Q := Gen.SearchParams.rerankScale
 
 def effLimit (o : Opts S) : Nat := if o.limit ≤ 0 then defaultLimit else o.limit.toNat
 def effCap (o : Opts S) : Nat := if o.topTermsCap ≤ 0 then defaultTermCap else o.topTermsCap.toNat
